@@ -369,9 +369,29 @@ def check_error_classes(ctx, crate, bodies, rule, expected=INVALID_ARG, label="r
 
 
 # ---------------------------------------------------------------------------------------- panic inventory
+def debug_only_blocks(body):
+    """blocks only reachable under `if cfg!(debug_assertions)` (debug_assert!): dominated by the true edge of a switch
+    on the constant produced by the cfg! macro"""
+    cfg = CFG(body)
+    out = set()
+    for i, blk in enumerate(body.blocks):
+        t = blk["t"]
+        if "switch" in t and "cfg" in str(t.get("x") or ""):
+            r = dt.resolve_copy(body, t["switch"])
+            if r[0] == "const" and "bool" in r[1]:
+                tgt = t["otherwise"]
+                for b in range(cfg.n):
+                    if b in cfg.reach and cfg.edge_dominates(i, tgt, b):
+                        out.add(b)
+    return out
+
+
 def panic_sites(body):
     out = []
+    dbg = debug_only_blocks(body)
     for i, blk in enumerate(body.blocks):
+        if i in dbg:
+            continue
         if blk.get("cleanup"):
             continue
         t = blk["t"]
